@@ -7,7 +7,11 @@ P=$1; D=$2; TIER=${3:-quick}
 WT=/var/tmp/seedtry.$$
 git -C /repo worktree add -q --detach $WT HEAD || exit 2
 trap 'git -C /repo worktree remove --force $WT >/dev/null 2>&1' EXIT
-if ! git -C $WT apply "$D/patch.diff"; then echo "RESULT $P $D: patch does not apply"; exit 2; fi
+if ! git -C $WT apply "$D/patch.diff" 2>/dev/null; then
+  # context moved (hooks / fixes landed since the seed was written): retry with fuzz
+  if ! (cd $WT && patch -p1 -F3 -s < "$D/patch.diff"); then echo "RESULT $P $D: patch does not apply"; exit 2; fi
+  echo "(patch applied with fuzz)"
+fi
 (cd $WT && GOFLAGS=-mod=mod GOPROXY=off go build ./... 2>&1 | grep -v jemalloc | head -5)
 if [ -f "$D/demo/run.sh" ] && [ -z "$SKIP_DEMO" ]; then
   cp -r "$D/demo" $WT/.seed-demo
